@@ -292,20 +292,30 @@ def c06_f(ctx: Ctx):
     else:
         tests = [n for n in body_nodes(red) if isinstance(n, ast.If)]
         if tests:
+            # which assignment *replaces* the running result by the new match (value is the parameter), and under which facts?
+            par = red.params[0] if red.params else "match"
+            repl = [n for n in body_nodes(red) if isinstance(n, ast.Assign) and len(n.targets) == 1 and isinstance(n.targets[0], ast.Name) and canon(n.value) == par]
             t = canon(tests[0].test).replace(" ", "")
-            if t == "result_idsisNone":
-                out.append(ctx.ok(R, red, tests[0], "the first match is recognised by `result_ids is None`"))
-                inter = [c for c in body_nodes(red) if isinstance(c, ast.Call) and isinstance(c.func, ast.Attribute) and c.func.attr in ("intersection",)]
-                inter += [c for c in body_nodes(red) if isinstance(c, ast.BinOp) and isinstance(c.op, ast.BitAnd)]
-                if inter:
-                    out.append(ctx.ok(R, red, inter[0], "later matches are intersected with the running result"))
-                else:
-                    out.append(ctx.viol(R, red, red.node, "later matches are not intersected with the running result"))
-            elif t in ("notresult_ids", "result_idsisNoneornotresult_ids", "len(result_ids)==0"):
-                out.append(ctx.viol(R, red, tests[0], f"the running result is replaced whenever `{canon(tests[0].test)}`: an empty intermediate result (e.g. from $not) is overwritten by "
-                                    "the next sibling condition instead of absorbing it"))
-            else:
+            if not repl:
                 out.append(ctx.inc(R, red, tests[0], "accumulator test not recognised: " + t))
+            for rp in repl:
+                acc = rp.targets[0].id
+                facts = common.facts_at(ctx, red, rp, "n")
+                only_none = (f"{acc} is None", True) in facts
+                falsy = any((ft.replace(" ", "") == acc and not pol) or (ft.replace(" ", "") in (f"len({acc})==0", f"{acc}==set()") and pol) for (ft, pol) in facts)
+                if only_none and not falsy:
+                    out.append(ctx.ok(R, red, tests[0], f"the first match is recognised by `{acc} is None`"))
+                    inter = [c for c in body_nodes(red) if isinstance(c, ast.Call) and isinstance(c.func, ast.Attribute) and c.func.attr in ("intersection",)]
+                    inter += [c for c in body_nodes(red) if isinstance(c, ast.BinOp) and isinstance(c.op, ast.BitAnd)]
+                    if inter:
+                        out.append(ctx.ok(R, red, inter[0], "later matches are intersected with the running result"))
+                    else:
+                        out.append(ctx.viol(R, red, red.node, "later matches are not intersected with the running result"))
+                elif falsy or not facts:
+                    out.append(ctx.viol(R, red, tests[0], f"the running result is replaced whenever it is empty or unset (`{canon(tests[0].test)}`): an empty intermediate result (e.g. from $not) is "
+                                        "overwritten by the next sibling condition instead of absorbing it"))
+                else:
+                    out.append(ctx.inc(R, red, tests[0], f"accumulator test not recognised: {t} (facts {sorted(facts)})"))
     # $not complement
     for n in body_nodes(f):
         if isinstance(n, ast.Call) and isinstance(n.func, ast.Attribute) and n.func.attr == "difference" and canon(n.func.value) == "set(self)":
@@ -415,6 +425,25 @@ def c06_g(ctx: Ctx):
         out.append(ctx.ok(R, h, h.node, "_to_hashable converts nested lists recursively"))
     else:
         out.append(ctx.inc(R, h, h.node, f"_to_hashable returns {rets}"))
+    # equal mappings must hash equally: _hashable_dict inherits dict.__eq__ (order-insensitive, 1 == 1.0 == True), so its hash must be computed from the
+    # unordered item set with the items' own hashes - never from a text serialisation
+    hd = ctx.prog.classes.get("signac._utility:_hashable_dict")
+    hh = hd.methods.get("__hash__") if hd is not None else None
+    kh = "signac._utility:_hashable_dict|hash-eq"
+    if hh is None:
+        out.append(ctx.inc(R, None, None, "_hashable_dict.__hash__ not found", construct=kh))
+    else:
+        rets = [r for r in body_nodes(hh) if isinstance(r, ast.Return) and r.value is not None]
+        ser = [c for c in body_nodes(hh) if isinstance(c, ast.Call) and (common.ext_name(ctx, hh, c) in ("json.dumps", "builtins.str", "builtins.repr", "pickle.dumps", "builtins.format")
+                                                                       or (isinstance(c.func, ast.Attribute) and c.func.attr in ("dumps", "format", "encode")))]
+        okshape = any(common.pmatch("hash(tuple(sorted(self.items())))", r.value) is not None or common.pmatch("hash(frozenset(self.items()))", r.value) is not None for r in rets)
+        if ser:
+            out.append(ctx.viol(R, hh, ser[0], f"_hashable_dict.__hash__ hashes a text serialisation ({canon(ser[0])[:40]}): mappings that compare equal (other key order, 1 vs 1.0 vs True) "
+                                "get different hashes, so an index look-up with a list-of-mappings value misses jobs that `==` accepts and $not returns too many", construct=kh))
+        elif okshape:
+            out.append(ctx.ok(R, hh, rets[0], "_hashable_dict hashes its unordered item set with the items' own hashes (consistent with dict equality)", construct=kh))
+        else:
+            out.append(ctx.inc(R, hh, hh.node, f"_hashable_dict.__hash__ has an unrecognised shape: {[canon(r.value)[:50] for r in rets]}", construct=kh))
     bi = ctx.fn(IDX + ":_SearchIndexer.build_index")
     if any(isinstance(c, ast.Call) and "signac._utility:_to_hashable" in common.targets_of(ctx, bi, c) for c in body_nodes(bi)):
         out.append(ctx.ok(R, bi, bi.node, "build_index files list values under the same hashable form that filters are flattened to"))
@@ -530,4 +559,15 @@ def c06_k(ctx: Ctx):
     return out
 
 
-RULES = [c06_a, c06_b, c06_c, c06_d, c06_e, c06_f, c06_g, c06_h, c06_i, c06_j, c06_k]
+@rule("C06-l")
+def c06_l(ctx: Ctx):
+    """Index builders treat every job independently: nothing read while indexing one job was computed for another."""
+    from .lints import per_item_loops
+    return per_item_loops(ctx, "C06-l", [
+        ("signac.project:Project._build_index", "a job without (readable) document is indexed with the previous job's document, so doc.* filters depend on which other jobs exist and on the listing order"),
+        (IDX + ":_SearchIndexer.build_index", "a job lacking the key is filed under the previous job's value"),
+        ("signac.project:Project._find_job_ids", "the result depends on which other jobs exist"),
+    ])
+
+
+RULES = [c06_l, c06_a, c06_b, c06_c, c06_d, c06_e, c06_f, c06_g, c06_h, c06_i, c06_j, c06_k]
